@@ -6,6 +6,7 @@ from bardolph.controller import i_controller, lifx_lan_light
 from bardolph.lib import i_lib
 from bardolph.lib.injection import bind, inject
 from bardolph.lib.param_helper import param_color, param_16, param_32
+from bardolph.lib.retry import tries
 
 
 class LifxLanApi(i_controller.LightApi):
@@ -31,10 +32,12 @@ class LifxLanApi(i_controller.LightApi):
                     "Expected {} devices, found {}".format(expected, actual))
         return lights
 
+    @tries(lifx_lan_light._MAX_TRIES, lifxlan.errors.WorkflowException)
     def set_color_all_lights(self, color, duration):
         color = param_color(color)
         self._lifxlan.set_color_all_lights(color, param_32(duration), True)
 
+    @tries(lifx_lan_light._MAX_TRIES, lifxlan.errors.WorkflowException)
     def set_power_all_lights(self, power_level, duration):
         self._lifxlan.set_power_all_lights(
             param_16(power_level), param_32(duration), True)
